@@ -216,11 +216,14 @@ WEIGHTS = ([0] * 10 + [1] * 4 + [2] * 2 + [3] * 2 + [4] + [5] * 2 + [6] * 2 + [7
 
 
 def rand_seq(rng, n, length):
-    nv = 2 + rng.below(2)
+    # every fourth sequence works on wide levels (10-17 values per column, 20-40 tuples, insert-heavy start): maps with
+    # >= 8 keys on one level are needed to reach removals of nodes with two children and deep successors
+    wide = n > 0 and rng.chance(1, 4)
+    nv = (10 + rng.below(8)) if wide else (2 + rng.below(2))
     vals = list(range(nv))
     # a small pool of tuples with shared prefixes
     pool = []
-    for _ in range(4 + rng.below(6)):
+    for _ in range((20 + rng.below(21)) if wide else (4 + rng.below(6))):
         if pool and n > 0:
             base = rng.choice(pool)
             cut = rng.below(n + 1)
@@ -242,8 +245,12 @@ def rand_seq(rng, n, length):
             return rng.choice(pool)[0]
         return rng.below(nv + 1)
     ops = []
-    for _ in range(length):
+    if wide:
+        length += 40
+    for step in range(length):
         code = rng.choice(WEIGHTS)
+        if wide and step < 30 and rng.chance(3, 4):
+            code = 0
         if n == 0 and code in NO_ARITY0:
             code = rng.choice([0, 1, 8, 9, 13, 15, 16])
         args = []
